@@ -26,6 +26,8 @@ type Gen struct {
 	UP4 bool
 	// PrecBoundary: draw precedence from the boundaries of the 16-bit range (C16)
 	PrecBoundary bool
+	// Rateless: some QERs carry no rates at all (UP4 image oracle)
+	Rateless bool
 	// ModKinds: when set, Modification draws its kind among these only
 	ModKinds []int
 }
@@ -170,6 +172,10 @@ func (g *Gen) Session(p *Peer, sh SessShape) *CPSession {
 		if g.PlainQER {
 			q.HasGBR, q.GBRUL, q.GBRDL = false, 0, 0
 			q.HasMBR, q.MBRUL, q.MBRDL = true, uint64(100000*(i+1)), uint64(200000*(i+1))
+			if g.UP4 && g.Rateless && sh.NQER == 1 && g.c(3, "rateless") == 1 {
+				// gate status and QFI only: unmetered
+				q.HasMBR, q.MBRUL, q.MBRDL = false, 0, 0
+			}
 		}
 		s.QERs = append(s.QERs, q)
 	}
